@@ -1,6 +1,6 @@
 (* C09 — alternative routes agree; zone files round-trip.
    The zone-line format is regenerated from StructureSimilarity._write_zone (Generated_zone.v). *)
-From Verif Require Import PyLib ModelTypes Generated_zone Model_zone Model_rmsd Proofs_zone.
+From Verif Require Import PyLib ModelTypes Generated_zone Model_contact Model_superpose Model_zone Model_rmsd Proofs_zone Proofs_routes.
 Open Scope string_scope.
 
 (* every chain identifier that is one character, not blank and not '-', and EVERY integer residue
@@ -27,9 +27,31 @@ Proof. vm_compute. reflexivity. Qed.
 Theorem C09_zone_written_atomically : zone_write_atomic_src = true.
 Proof. reflexivity. Qed.
 
-(* fast = SQL and svd = quaternion for each measure are corollaries of C07 (both routes pair by
-   identity and report the kernel residual) and of C06_methods_agree (both kernels attain the same
-   minimum); they are decided on every run by running all call forms of each measure.
+(* fast = SQL for the i-RMSD: when decoy and reference list the same atoms (chain, residue number, residue name, atom
+   name) in the same order, each once, both routes fit and measure on the SAME coordinate lists — the backbone atoms
+   of the zone residues of each structure in file order — for any zone, whether checking is on or off, and hence
+   report the same value for the same rotation *)
+Theorem C09_fast_route_coordinates : forall rmat z check enforce decoy ref, aligned decoy ref ->
+  let xd := map pos_of (in_zone_atoms bb4 (resdata_of z) decoy) in
+  let xr := map pos_of (in_zone_atoms bb4 (resdata_of z) ref) in
+  irmsd_fast rmat z check enforce decoy ref = msd (superpose_selection rmat xd xr xd) xr.
+Proof. exact irmsd_fast_aligned. Qed.
+Theorem C09_sql_route_coordinates : forall rmat z decoy ref, aligned decoy ref ->
+  let xd := map pos_of (in_zone_atoms bb4 (resdata_of z) decoy) in
+  let xr := map pos_of (in_zone_atoms bb4 (resdata_of z) ref) in
+  irmsd_sql rmat (izone_rows_from_zone z ref) decoy ref
+  = match xd with [] => Err "ValueError" | _ => msd (map (mv rmat) (centred xd)) (centred xr) end.
+Proof. exact irmsd_sql_aligned. Qed.
+Theorem C09_irmsd_routes_agree_partial : forall rmat z check enforce decoy ref m m', aligned decoy ref ->
+  irmsd_fast rmat z check enforce decoy ref = Ok m ->
+  irmsd_sql rmat (izone_rows_from_zone z ref) decoy ref = Ok m' -> (m == m')%Q.
+Proof. exact irmsd_routes_agree. Qed.
+Print Assumptions C09_irmsd_routes_agree_partial.
+
+(* PARTIAL: for structures that are not aligned (missing atoms, permuted records) fast = SQL follows from C07 (both
+   routes pair by identity — the fast one only under the same-relative-order condition, F6 — and report the kernel
+   residual), and svd = quaternion from C06_methods_agree (both kernels attain the same minimum); L-RMSD and Fnat
+   route agreement likewise; all are decided on every run by running all call forms of each measure.
    The L-RMSD routes differ on ambiguous chain sizes: known finding F5. *)
 Example C09_example :
   write_zone [("A", 4%Z); ("A", (-2)%Z); ("b", 0%Z)] = "zone A4-A4
